@@ -181,6 +181,48 @@ def _fr(x):
     return F(x) if isinstance(x, str) else x
 
 
+# ----------------------------------------------------------------------------------------------
+# numeric spelling of count parameters: the exact value and its Python type go to the Lean model,
+# which does the rounding (`roundCount` / `takeCount` / `durLen` of Model/C02Stop.lean)
+# ----------------------------------------------------------------------------------------------
+def spell_count(rng, n, kinds=("int", "int", "float", "float", "frac", "bool")):
+    """a Python spelling of (about) the count n: {"kind": int|float|frac|bool, "v": exact value}"""
+    kind = rng.choice(kinds)
+    if kind == "bool":
+        return {"kind": "bool", "v": bool(n % 2)}
+    if kind == "int":
+        return {"kind": "int", "v": n if rng.random() < .9 else -rng.randint(1, 3)}
+    # floats / Fractions around n: exact, ties (half to even!), just below / above a tie, negative
+    off = rng.choice(["0", "0", "1/4", "-1/4", "1/2", "1/2", "-1/2", "3/8", "-3/8", "5/8"])
+    q = F(n) + F(off)
+    if rng.random() < .08:
+        q = -q
+    return {"kind": kind, "v": common.enc(q)}
+
+
+def unspell(num):
+    k = num["kind"]
+    if k == "int":
+        return int(num["v"])
+    if k == "bool":
+        return bool(num["v"])
+    if k == "frac":
+        return F(num["v"])
+    if k == "float":
+        return float(F(num["v"]))
+    return float(k)          # "inf", "-inf", "nan"
+
+
+def spell_tag(num):
+    if num["kind"] in ("float", "frac"):
+        q = F(num["v"])
+        return "%s:%s" % (num["kind"], "neg" if q < 0 else "integral" if q.denominator == 1 else
+                          "tie" if q.denominator == 2 else "other")
+    if num["kind"] == "int":
+        return "int:neg" if int(num["v"]) < 0 else "int"
+    return num["kind"]
+
+
 def _pat_pred(pat, invert=False):
     """Predicate following a fixed pass pattern by call number (True beyond its end)."""
     state = {"i": 0}
@@ -278,17 +320,47 @@ def _install():
     reg("compress", "any", "same", g_pat,
         lambda s, p, c: al.compress(s, it.chain([int(b) for b in p["pat"]], it.repeat(1))), FILT)
 
+    def via(s, p):
+        """the object the method is called on: a Stream, or a StreamTeeHub (whose limit / skip / append /
+        map / filter wrappers cast one of its copies to a Stream first)"""
+        return thub(s, 1) if p.get("route") == "thub" else Stream(s)
+    ROUTE = lambda rng: rng.choice(["stream", "stream", "thub"])
+
     def g_skip(rng, cx):
         n = rng.choice([0, 1, 2, 3, 5, rng.randint(0, 12)])
-        form = rng.choice(["int", "int", "float"])
-        return {"n": n, "form": form}
+        return {"n": spell_count(rng, n), "route": ROUTE(rng)}
+    def skip_num(p):
+        """(older corpus cases: n is an int and "form" says how it was spelled)"""
+        if isinstance(p["n"], dict):
+            return p["n"]
+        return {"kind": "int", "v": p["n"]} if p.get("form", "int") == "int" else {"kind": "float", "v": common.enc(F(p["n"]) + F(1, 4))}
     reg("Stream.skip", "any", "same", g_skip,
-        lambda s, p, c: Stream(s).skip(p["n"] if p["form"] == "int" else p["n"] + 0.25),
-        lambda p: {"m": "skip", "n": p["n"]})
+        lambda s, p, c: via(s, p).skip(unspell(skip_num(p))),
+        lambda p: {"m": "skipn", "n": skip_num(p)})
     reg("dropwhile", "any", "same", lambda rng, cx: {"n": rng.randint(0, 6)},
         lambda s, p, c: al.dropwhile(_first_n_pred(p["n"]), s), lambda p: {"m": "skip", "n": p["n"]})
-    reg("Stream.limit", "any", "same", lambda rng, cx: {"extra": rng.randint(0, 5)},
-        lambda s, p, c: Stream(s).limit(10 ** 5 + p["extra"]), SAMPLE)
+    # (a limit that is never reached: the stopping behaviour of limit is the `probe` entry below)
+    reg("Stream.limit", "any", "same", lambda rng, cx: {"extra": rng.randint(0, 5), "route": ROUTE(rng)},
+        lambda s, p, c: via(s, p).limit(10 ** 5 + p["extra"]), SAMPLE)
+    reg("pairwise", "any", "c", NOP, lambda s, p, c: al.pairwise(s), lambda p: {"m": "skip", "n": 1})
+    reg("starmap", "any", "same", NOP,
+        lambda s, p, c: al.starmap(lambda v: v, al.imap(lambda v: (v,), s)), lambda p: {"m": "cascade", "n": 2})
+    reg("batched", "any", "c", lambda rng, cx: {"n": rng.randint(1, 5)},
+        lambda s, p, c: al.batched(s, p["n"]), lambda p: {"m": "blocks", "size": p["n"], "hop": p["n"]})
+
+    def b_groupby(s, p, c):
+        # the key changes exactly where the pattern says so (a new group starts at a passing item)
+        state = {"i": 0, "key": 0}
+
+        def key(_v):
+            i = state["i"]
+            state["i"] = i + 1
+            if i == 0 or (p["pat"][i] if i < len(p["pat"]) else True):
+                state["key"] += 1
+            return state["key"]
+        return al.groupby(s, key)
+    reg("groupby", "any", "c", g_pat, b_groupby,
+        lambda p: {"m": "filt", "pat": [True] + list(p["pat"][1:])})
 
     def g_items(rng, cx):
         return {"n": rng.randint(0, 6)}
@@ -523,6 +595,24 @@ def _install():
         lambda s, p, c: al.sin_table(Stream(s) * .01, phase=(Stream(c.get("phase")) * .1) if p.get("phase") else 0.),
         lambda p: {"m": "cascade", "n": 4}, aux=lambda p: [A("phase")] if p.get("phase") else [])
 
+    # --- envelopes with an iterable argument -------------------------------------------------------------
+    def g_attack(rng, cx):
+        dur = lambda: rng.choice([{"kind": "int", "v": rng.randint(0, 4)},
+                                  {"kind": "float", "v": common.enc(F(rng.randint(0, 9), 2))},
+                                  {"kind": "float", "v": common.enc(F(rng.randint(0, 30), 8))}])
+        return {"a": dur(), "d": dur(), "sus": rng.choice(["src", "stream", "thub", "gen"])}
+
+    def b_attack(s, p, c):
+        sus = {"src": lambda: s, "stream": lambda: Stream(s), "thub": lambda: thub(s, 1),
+               "gen": lambda: (v for v in s)}[p["sus"]]()
+        return al.attack(unspell(p["a"]), unspell(p["d"]), sus)
+    reg("attack", "s", "s", g_attack, b_attack, lambda p: {"m": "attack", "a": p["a"], "d": p["d"]})
+
+    for strat in ("struct", "array"):
+        reg("chunks." + strat, "s", "c", lambda rng, cx: {"size": rng.randint(1, 6)},
+            (lambda st: lambda s, p, c: al.chunks[st](s, size=p["size"], dfmt="f"))(strat),
+            lambda p: {"m": "blocks", "size": p["size"], "hop": p["size"]})
+
     # --- blocks / overlap-add / stft --------------------------------------------------------------------
     def g_blocks(rng, cx):
         size = rng.choice([1, 2, 3, 4, rng.randint(1, 9)])
@@ -658,6 +748,191 @@ def registry():
         _install()
         _INSTALLED = True
     return REG
+
+
+
+# ----------------------------------------------------------------------------------------------
+# stopping stages (`probe` entry): stages that leave their loop while the source still has items.
+# Observed: pulls at construction, at iter(), and after EVERY request - also the requests made
+# after the stage has ended (StopIteration), twice at least - at the source and at every tap.
+# ----------------------------------------------------------------------------------------------
+XREG = {}
+
+
+def xreg(name, gen, build, model, err_at="build"):
+    XREG[name] = dict(name=name, gen=gen, build=build, model=model, err_at=err_at)
+
+
+def _xinstall():
+    al = _al()
+    Stream, thub = al.Stream, al.thub
+    via = lambda s, p: thub(s, 1) if p.get("route") == "thub" else Stream(s)
+
+    def g_count(rng, cx):
+        n = rng.choice([0, 1, 2, 3, 4, 6, rng.randint(0, 9)])
+        num = spell_count(rng, n)
+        if cx.get("single") and rng.random() < .06:
+            num = {"kind": rng.choice(["inf", "-inf", "nan"])}
+        return {"n": num, "route": rng.choice(["stream", "stream", "thub"])}
+    xreg("Stream.limit", g_count, lambda s, p, c: via(s, p).limit(unspell(p["n"])),
+         lambda p: {"m": "limit", "n": p["n"]})
+    xreg("Stream.skip", g_count, lambda s, p, c: via(s, p).skip(unspell(p["n"])),
+         lambda p: {"m": "skipn", "n": p["n"]}, err_at="first")
+    xreg("takewhile", lambda rng, cx: {"n": rng.randint(0, 7)},
+         lambda s, p, c: al.takewhile(_first_n_pred(p["n"]), s), lambda p: {"m": "takewhile", "n": p["n"]})
+
+    def g_isl(rng, cx):
+        start = rng.choice([0, 0, 1, 2, 5])
+        return {"start": start, "stop": rng.choice([0, 1, 3, 6, start, start + rng.randint(0, 6)]),
+                "step": rng.randint(1, 3), "short": rng.random() < .3}
+
+    def b_isl(s, p, c):
+        if p["short"]:
+            return al.islice(s, p["stop"])
+        return al.islice(s, p["start"], p["stop"], p["step"])
+    xreg("islice", g_isl, b_isl,
+         lambda p: {"m": "isliceStop", "start": 0 if p["short"] else p["start"], "stop": p["stop"],
+                    "step": 1 if p["short"] else p["step"]})
+
+
+_XINSTALLED = False
+
+
+def xregistry():
+    global _XINSTALLED
+    if not _XINSTALLED:
+        registry()
+        _xinstall()
+        _XINSTALLED = True
+    return XREG
+
+
+def _xentry(el):
+    return xregistry()[el["st"]] if el.get("x") else registry()[el["st"]]
+
+
+def _xmodel_chain(c):
+    return [_xentry(el)["model"](el["p"]) for el in c["chain"]]
+
+
+def _gen_xchain(rng, depth, single=False):
+    """chain of `depth` stages over samples, at least one of them a stopping stage; plain stages
+    behind the first stopping one see a source that ENDS, so they come from DRAIN_OK"""
+    R, X = registry(), xregistry()
+    plain_any = sorted(n for n in R if R[n]["kin"] == "any" and R[n]["kout"] == "same" and R[n]["aux"] is NOAUX
+                       and n not in ("Stream.limit", "cycle"))
+    xpos = rng.randrange(depth)
+    chain, stopped = [], False
+    for pos in range(depth):
+        if pos == xpos or (depth > 2 and rng.random() < .2):
+            name = rng.choice(sorted(X))
+            chain.append({"st": name, "x": True, "p": X[name]["gen"](rng, {"single": single})})
+            stopped = True
+        else:
+            cand = [n for n in plain_any if not stopped or n in DRAIN_OK]
+            name = rng.choice(cand)
+            chain.append({"st": name, "p": R[name]["gen"](rng, {"kind": "s", "bsize": None, "pos": pos})})
+    return chain
+
+
+def _xattach(cases):
+    """ask the Lean model how many source items K requests may pull (`need`) and how many outputs exist"""
+    todo = [c for c in cases if c.get("entry") == "probe" and "need" not in c]
+    if not todo:
+        return cases
+    outs = common.Driver().batch([{"id": ID, "entry": "probe", "chain": _xmodel_chain(c), "n": 0, "k": c["k"]} for c in todo])
+    for c, o in zip(todo, outs):
+        if "ok" not in o:
+            raise common.InfraError("C02 probe query rejected: %s for %s" % (o, json.dumps(c)[:300]))
+        c["need"] = o["ok"].get("need", 0)
+    return cases
+
+
+def _run_probe(c):
+    K = c["k"]
+    mode = c["mode"]
+    n = None if mode == "endless" else c["need"] + (0 if mode == "trip" else c["slack"])
+    RUNAWAY = c["need"] + 3000
+    src = Src(n, trip=(mode == "trip"), vals=c.get("vals", "pos"), cap=RUNAWAY)
+    ctx = Ctx()
+    ctx.cap, ctx.K, ctx.kind, ctx.bsize = RUNAWAY, K, "s", None
+    ctx.maker = lambda stage, d, j: Src(None, cap=RUNAWAY)
+    taps, cur = [src], src
+    kind = lambda e: "OTHER:TripWire" if isinstance(e, TripWire) else err_kind(e)
+    try:
+        for i, el in enumerate(c["chain"]):
+            ctx.declare(i, [])
+            out = _xentry(el)["build"](cur, el["p"], ctx)
+            if i + 1 < len(c["chain"]):
+                cur = Tap(out, cap=RUNAWAY)
+                taps.append(cur)
+            else:
+                cur = out
+    except CaseTimeout:
+        raise
+    except Exception as e:
+        return {"build_err": kind(e), "errmsg": str(e)[:200], "c0": [t.count for t in taps]}
+    counts = lambda: [t.count for t in taps]
+    obs = {"c0": counts(), "req": [], "levels": [[] for _ in taps]}
+    itr = iter(cur)
+    obs["c1"] = counts()
+    for _ in range(K):
+        try:
+            next(itr)
+            obs["req"].append(True)
+        except StopIteration:
+            obs["req"].append(False)
+        except CaseTimeout:
+            raise
+        except Exception as e:
+            obs["req"].append(kind(e))
+            obs.setdefault("errmsg", str(e)[:200])
+        for lv, v in zip(obs["levels"], counts()):
+            lv.append(v)
+    obs["tripped"] = src.tripped
+    obs["outs"] = sum(1 for r in obs["req"] if r is True)
+    return obs
+
+
+def _diff_probe(c, io, drv, which):
+    out = []
+    names = [el["st"] for el in c["chain"]]
+    xerr = [(_xentry(el)["err_at"], el["st"]) for el in c["chain"] if el.get("x")]
+    if "build_err" in drv:
+        at, st = xerr[0] if xerr else ("build", names[0])
+        if at == "build":
+            if io.get("build_err") != drv["build_err"]:
+                out.append("%s: the constructor must raise %s, impl: %s" % (st, drv["build_err"], io.get("build_err", "no error")))
+        else:
+            if "build_err" in io or not io.get("req") or io["req"][0] != drv["build_err"]:
+                out.append("%s: the first next() must raise %s, impl: %r" % (st, drv["build_err"], io.get("build_err") or io.get("req")))
+            elif any(r is not False for r in io["req"][1:]):
+                out.append("%s: after the exception the generator is finished, impl: %r" % (st, io["req"]))
+        if any(io.get("c0", [])) or any(any(lv) for lv in io.get("levels", [])):
+            out.append("%s: a call that raises %s must read nothing, pulls: %r %r" % (st, drv["build_err"], io.get("c0"), io.get("levels")))
+        return out
+    if "build_err" in io:
+        return ["impl raised %s at construction (%s), the model builds the chain" % (io["build_err"], io.get("errmsg", ""))]
+    if any(io["c0"]):
+        out.append("construction pulled items: counts=%r" % (io["c0"],))
+    if any(io.get("c1", [])):
+        out.append("iter() on the output pulled items: counts=%r" % (io["c1"],))
+    if which == "model" and io["req"] != drv["delivered"]:
+        j = next(k for k in range(len(io["req"])) if k >= len(drv["delivered"]) or io["req"][k] != drv["delivered"][k])
+        out.append("request #%d: impl %s, model %s" % (j + 1, _req_word(io["req"][j]), _req_word(drv["delivered"][j])))
+    for i, (got, exp) in enumerate(zip(io["levels"], drv[which])):
+        if got != exp:
+            j = next(k for k in range(len(got)) if k >= len(exp) or got[k] != exp[k])
+            past = " (asked past the end)" if io["req"][j] is not True else ""
+            out.append("stage %d (%s): pulls in front of it after request #%d%s: impl=%d %s=%s" % (
+                i, names[i], j + 1, past, got[j], which, exp[j] if j < len(exp) else "none"))
+    if io.get("tripped"):
+        out.append("trip-wire touched: the source was read past the %d items the chain may read" % c["need"])
+    return out
+
+
+def _req_word(r):
+    return "delivers an output" if r is True else "raises StopIteration" if r is False else "raises %s" % r
 
 
 # ----------------------------------------------------------------------------------------------
@@ -906,12 +1181,31 @@ def generate(rng, tier, scale=1):
             c = _ctl_case(rng, name, rng.choice([2, 3, 4, 6, 9] if quick else [2, 3, 4, 6, 9, 25]))
             if c is not None:
                 cases.append(c)
+    # stopping stages, spelled counts, requests past the end
+    X = xregistry()
+    for name in sorted(X):
+        for i in range((40 if quick else 300) * scale):
+            chain = [{"st": name, "x": True, "p": X[name]["gen"](rng, {"single": True})}]
+            for mode in MODES:
+                cases.append({"entry": "probe", "chain": chain, "k": rng.choice([1, 3, 6, 9, 12, 14]), "mode": mode,
+                              "slack": rng.choice([1, 2, 7]), "vals": "pos"})
+    for j in range((500 if quick else 4000) * scale):
+        cases.append({"entry": "probe", "chain": _gen_xchain(rng, rng.randint(2, 3 if quick else 4)),
+                      "k": rng.choice([2, 5, 9, 12, 14]), "mode": rng.choice(MODES), "slack": rng.choice([1, 3, 20]),
+                      "vals": "pos"})
     if scale == 1:
         for n in range(0, 9):
             for ln in (n, n + 1, n + 5):
                 cases.append({"entry": "take", "n": n, "len": ln, "form": ("int", "float")[n % 2]})
             cases.append({"entry": "peek", "n": n, "k": 8, "hub": n % 3 == 0})
-    return [c for c in _attach(cases) if not _oversized(c)]
+    for i in range((150 if quick else 1500) * scale):
+        n = rng.randint(0, 8)
+        num = spell_count(rng, n, kinds=("int", "float", "float", "float", "frac", "bool"))
+        if rng.random() < .1:
+            num = {"kind": rng.choice(["inf", "-inf", "nan"])}
+        cases.append({"entry": "take", "num": num, "len": rng.choice([0, n, n + 1, n + 5, rng.randint(0, 12)]),
+                      "how": rng.choice(["take", "take", "peek", "hub.peek", "take.kw"])})
+    return [c for c in _xattach(_attach(cases)) if not _oversized(c)]
 
 
 # ----------------------------------------------------------------------------------------------
@@ -1081,6 +1375,35 @@ def impl(c):
         finally:
             signal.setitimer(signal.ITIMER_REAL, 0)
             signal.signal(signal.SIGALRM, old)
+    if c["entry"] == "probe":
+        if "need" not in c:
+            _xattach([c])
+        import signal
+        old = signal.signal(signal.SIGALRM, _alarm)
+        signal.setitimer(signal.ITIMER_REAL, CASE_TIMEOUT)
+        try:
+            return _run_probe(c)
+        except CaseTimeout as e:
+            return {"err": "OTHER:Timeout", "errmsg": str(e)}
+        except Exception as e:
+            return {"err": "harness:" + err_kind(e), "errmsg": str(e)[:300]}
+        finally:
+            signal.setitimer(signal.ITIMER_REAL, 0)
+            signal.signal(signal.SIGALRM, old)
+    if c["entry"] == "take" and "num" in c:
+        # consumers with a SPELLED count: items pulled by the call, items handed out, and what is left
+        src = Src(c["len"], trip=False)
+        how = c["how"]
+        s = al.thub(src, 1) if how == "hub.peek" else al.Stream(src)
+        n = unspell(c["num"])
+        try:
+            c0 = src.count
+            got = s.take(n=n) if how == "take.kw" else s.take(n) if how == "take" else s.peek(n)
+            pulled = src.count
+            rest = len(list(s))
+            return {"c0": c0, "pulled": pulled, "got": len(got), "rest": rest, "total": src.count}
+        except Exception as e:
+            return {"err": err_kind(e), "pulled": src.count}
     if c["entry"] == "take":
         src = Src(c["len"], trip=True)
         s = al.Stream(src)
@@ -1114,7 +1437,10 @@ def request(c):
             return {"entry": "reads", "chain": _model_chain(c), "n": c["n"], "k": c["k"], "aux": _aux_req(c)}
         n = c["need"] + (64 if c["mode"] == "endless" else (0 if c["mode"] == "trip" else c["slack"]))
         return {"entry": "reads", "chain": _model_chain(c), "n": n, "k": c["k"], "aux": _aux_req(c)}
-    return {k: v for k, v in c.items() if k in ("entry", "n", "len", "k")}
+    if c["entry"] == "probe":
+        n = c["need"] + (64 if c["mode"] == "endless" else (0 if c["mode"] == "trip" else c["slack"]))
+        return {"entry": "probe", "chain": _xmodel_chain(c), "n": n, "k": c["k"]}
+    return {k: v for k, v in c.items() if k in ("entry", "n", "len", "k", "num")}
 
 
 def _diff(c, io, drv, which):
@@ -1207,6 +1533,26 @@ def compare(c, io, drv):
             for d in _diff_ctl(c, io, drv, which):
                 out.append((which, d))
         return out
+    if c["entry"] == "probe":
+        if "err" in io:
+            return [("model", "impl run failed: %s (%s)" % (io["err"], io.get("errmsg", "")))]
+        for which in ("model", "spec"):
+            for d in _diff_probe(c, io, drv, which):
+                out.append((which, d))
+        return out
+    if c["entry"] == "take" and "num" in c:
+        what = "%s(%r) on %d items" % (c["how"], unspell(c["num"]), c["len"])
+        if "err" in drv:
+            if io.get("err") != drv["err"] or io.get("pulled"):
+                out.append(("model", "%s must raise %s without reading, impl=%r" % (what, drv["err"], io)))
+            return out
+        for which in ("model", "spec"):
+            peek = c["how"] in ("peek", "hub.peek")
+            want_rest = c["len"] - (0 if peek else drv[which])
+            if "err" in io or io["c0"] != 0 or io["pulled"] != drv[which] or io["got"] != drv[which] or \
+                    io["rest"] != want_rest or io["total"] != c["len"]:
+                out.append((which, "%s: impl=%r, %s: %d items pulled and handed out, %d left" % (what, io, which, drv[which], want_rest)))
+        return out
     if c["entry"] == "take":
         for which in ("model", "spec"):
             if "err" in io or io["pulled"] != drv[which] or io["got"] != drv[which]:
@@ -1221,6 +1567,8 @@ def compare(c, io, drv):
 def nontrivial(c, io):
     if c["entry"] in ("reads", "ctl"):
         return io.get("outs", 0) > 0
+    if c["entry"] == "probe":
+        return "req" in io or "build_err" in io
     return "err" not in io
 
 
@@ -1236,8 +1584,38 @@ def tally(eng, c, io):
         eng.count("ctl_result", "error" if ("A_err" in io or "B_err" in io or "err" in io) else
                   "differs" if io.get("first_diff") is not None else "over-read" if io.get("over") else "identical")
         return
+    if c["entry"] == "probe":
+        eng.count("probe_mode", c["mode"])
+        eng.count("probe_depth", len(c["chain"]))
+        for i, el in enumerate(c["chain"]):
+            eng.count("probe_stage", el["st"] + (" (stopping)" if el.get("x") else ""))
+            if el.get("x"):
+                eng.count("probe_stop_position", "single" if len(c["chain"]) == 1 else "head" if i == 0 else
+                          "last" if i == len(c["chain"]) - 1 else "inner")
+                if "n" in el["p"] and isinstance(el["p"]["n"], dict):
+                    eng.count("count_spelling", "%s(%s)" % (el["st"], spell_tag(el["p"]["n"])))
+                if "route" in el["p"]:
+                    eng.count("method_called_on", el["p"]["route"])
+        if "build_err" in io:
+            eng.count("probe_result", "constructor raises " + io["build_err"])
+        elif "req" in io:
+            past = sum(1 for r in io["req"] if r is not True)
+            eng.count("requests_past_the_end", min(past, 3))
+            errs = [r for r in io["req"] if r not in (True, False)]
+            eng.count("probe_result", "raises " + errs[0] if errs else "ended" if past else "not exhausted")
+        return
+    if c["entry"] == "take" and "num" in c:
+        eng.count("count_spelling", "%s(%s)" % (c["how"], spell_tag(c["num"])))
+        eng.count("take_result", "err:" + io["err"] if "err" in io else "all" if io["got"] == c["len"] else "some" if io["got"] else "none")
+        return
     if c["entry"] != "reads":
         return
+    for el in c["chain"]:
+        for k, v in el["p"].items():
+            if isinstance(v, dict) and "kind" in v:
+                eng.count("count_spelling", "%s.%s(%s)" % (el["st"], k, spell_tag(v)))
+        if "route" in el["p"] and el["st"].startswith("Stream."):
+            eng.count("method_called_on", el["p"]["route"])
     eng.count("mode", c["mode"])
     eng.count("depth", len(c["chain"]))
     eng.count("k", c["k"] if c["k"] <= 12 else ">12")
@@ -1274,7 +1652,8 @@ def tally(eng, c, io):
 
 def _strip(c):
     d = {k: v for k, v in c.items() if k not in ("need", "cap", "aux_need", "sched")}
-    d["chain"] = [{"st": el["st"], "p": {k: v for k, v in el["p"].items() if k != "nsteps"}} for el in c["chain"]]
+    d["chain"] = [dict({"st": el["st"], "p": {k: v for k, v in el["p"].items() if k != "nsteps"}},
+                       **({"x": True} if el.get("x") else {})) for el in c["chain"]]
     return d
 
 
@@ -1326,6 +1705,31 @@ def _param_cands(c):
 
 def shrink(c):
     """Few, strongly smaller candidates per round: single stages first, then k, then parameters."""
+    if c["entry"] == "probe":
+        _SHRINK_CALLS[0] += 1
+        if _SHRINK_CALLS[0] > SHRINK_BUDGET:
+            return
+        cands, ch = [], _strip(c)["chain"]
+        if len(ch) > 1:
+            cands += [dict(_strip(c), chain=[el]) for el in ch]
+            cands += [dict(_strip(c), chain=ch[:i] + ch[i + 1:]) for i in range(len(ch))]
+        if c["k"] > 1:
+            cands += [dict(_strip(c), k=v) for v in sorted({1, c["k"] // 2, c["k"] - 1})]
+        if c["mode"] != "finite":
+            cands.append(dict(_strip(c), mode="finite", slack=3))
+        for i, el in enumerate(ch):
+            num = el["p"].get("n")
+            if isinstance(num, dict) and num["kind"] in ("float", "frac", "int") and F(num["v"]) > 1:
+                nc = _strip(c)
+                nc["chain"][i] = dict(el, p=dict(el["p"], n=dict(num, v=common.enc(F(num["v"]) - 1))))
+                cands.append(nc)
+        try:
+            _xattach(cands)
+        except Exception:
+            return
+        for x in cands:
+            yield x
+        return
     if c["entry"] not in ("reads", "ctl"):
         return
     _SHRINK_CALLS[0] += 1
@@ -1385,6 +1789,12 @@ def shrink(c):
 
 
 def neighbours(c):
+    if c["entry"] == "probe":
+        cands = [dict(_strip(c), k=k, mode=m, slack=3) for k in (1, 3, 8, 14) for m in MODES]
+        _xattach(cands)
+        for x in cands:
+            yield x
+        return
     if c["entry"] != "reads":
         return
     cands = []
@@ -1416,6 +1826,26 @@ def classify(c, io, drv):
         if "B_err" in io:
             return "%s:control:err:%s" % (st, io["B_err"].split(":")[0])
         return "%s:control:%s" % (st, "value-lands-late-or-early" if io.get("first_diff") is not None else "schedule")
+    if c["entry"] == "probe":
+        names = [el["st"] for el in c["chain"]]
+        st = next((el["st"] for el in c["chain"] if el.get("x")), names[0])
+        if "err" in io:
+            return "%s:probe:err:%s" % (st, io["err"])
+        if "build_err" in io or "build_err" in drv:
+            return "%s:probe:constructor-error" % st
+        if any(io["c0"]) or any(io.get("c1", [])):
+            return "%s:probe:reads-at-construction" % names[next(i for i, v in enumerate([a or b for a, b in zip(io["c0"], io.get("c1", io["c0"]))]) if v)]
+        if io["req"] != drv.get("delivered"):
+            return "%s:probe:outputs" % st
+        for i in reversed(range(len(io["levels"]))):
+            got, exp = io["levels"][i], drv["model"][i]
+            if got != exp:
+                j = next(k for k in range(len(got)) if k >= len(exp) or got[k] != exp[k])
+                past = "-past-the-end" if io["req"][j] is not True else ""
+                return "%s:probe:%s%s" % (names[i], "over-read" if j >= len(exp) or got[j] > exp[j] else "under-read", past)
+        return "%s:probe:other" % st
+    if c["entry"] == "take" and "num" in c:
+        return "%s:spelled-count:%s" % (c["how"], "err:" + io["err"] if "err" in io else "over-read" if io.get("pulled", 0) > drv.get("model", 0) else "other")
     if c["entry"] != "reads":
         return c["entry"] + ":" + ("err:" + io["err"] if "err" in io else "over-read")
     names = [el["st"] for el in c["chain"]]
